@@ -64,7 +64,7 @@ CHECKS = {
     "C16": {
         "bins": ["router_run", "wills"], "bins_small": ["router_run"],
         "category": "model_checking",
-        "text": "Will.tla is the decision table of one connection's life seen from outside (will none/plain/retained x QoS x end by socket drop / protocol error / DISCONNECT / keep-alive expiry x an earlier connection of the same client id whose will fired x protocol version -> how often a standing subscriber sees the will, what a late subscriber gets as retained); TLC checks that the table implies the property and enumerates the rows, each row runs through the real remote() of server/broker.rs with a real router thread. Routing core: RouterSys.tla with wills registered at connect, DISCONNECT packets, link ends and PublishWill events in every order: WillAtMostOnce, WillNeverAfterDisconnect, WillPublishedWhenDue (checked when the event channel is empty), and the will reaches the matching subscribers like any publish (DeliveredExactly, retained wills via RetainedRules). The link-side decision (remote(): will delay, takeover cancel/fire) is not part of this check. TLC-generated schedules and seeded structured scenarios are executed on the real Router (scaled-constant build) and validated step by step against RouterTrace.tla with these invariants evaluated in every state.",
+        "text": "Will.tla is the decision table of one connection's life seen from outside (will none/plain/retained x QoS x end by socket drop / protocol error / DISCONNECT / keep-alive expiry x an earlier connection of the same client id whose will fired x protocol version -> how often a standing subscriber sees the will, what a late subscriber gets as retained); TLC checks that the table implies the property and enumerates the rows, each row runs through the real remote() of server/broker.rs with a real router thread. Routing core: RouterSys.tla with wills registered at connect, DISCONNECT packets, link ends and PublishWill events in every order: WillAtMostOnce, WillNeverAfterDisconnect, WillPublishedWhenDue (checked when the event channel is empty), and the will reaches the matching subscribers like any publish (DeliveredExactly, retained wills via RetainedRules). The link-side decision (remote(): will delay, takeover cancel/fire) is not part of this check. TLC-generated schedules and seeded structured scenarios are executed on the real Router (scaled-constant build) and validated step by step against RouterTrace.tla with these invariants evaluated in every state. The ways a connection ends include an MQTT 5 DISCONNECT that carries a reason code and properties.",
         "design_ref": "DESIGN.md section 6 / C16",
         "note": "Trusted: Router.tla/RouterSys.tla as transcription of rumqttd/src/router (bound step by step by trace validation of the real router with a full state projection), TLC, the verif hooks that step the router single-threaded, the scripted clients of the harness. Exhaustive only for the small configurations; production constants sampled by validated traces. Topic aliases are modelled separately (Alias.tla: one publisher, one subscriber, QoS 0) with the scheduling abstracted to one batch per filter and turn; subscription ids, message expiry, segment eviction are not modelled here.",
         "technique": "TLC model checking of RouterSys.tla and Alias.tla + TLC trace validation (state projection per step, invariants on every trace state) of the real router stepped through TLC-generated and seeded schedules",
@@ -88,7 +88,7 @@ CHECKS = {
     "C10": {
         "bins": ["client_sm", "client_loop"],
         "category": "model_checking",
-        "text": "Same model with every broker packet kind (v5: acknowledgements with success and with failure reason codes) and ids 0..limit+1; TLC checks on every transition that Incoming events equal the processed packets in order and that written packets and Outgoing announcements correspond one to one; replies to QoS1/QoS2/PUBREL and error results for unsolicited acks are part of the transcription that is bound to the code by the MqttState replay (manual acks on and off). The model is bound to the code in both directions: TLC-generated call sequences are replayed into the real rumqttc::MqttState and rumqttc::v5::MqttState with every observable compared, and the real EventLoop (both versions) is driven over an in-memory transport under paused time by TLC-generated and seeded random stimulus scripts (limits 2 and 100) whose recorded traces TLC validates against ClientLoopTrace.tla with this property's invariants evaluated in every state.",
+        "text": "Same model with every broker packet kind (v5: acknowledgements with success and with failure reason codes) and ids 0..limit+1; TLC checks on every transition that Incoming events equal the processed packets in order and that written packets and Outgoing announcements correspond one to one; replies to QoS1/QoS2/PUBREL and error results for unsolicited acks are part of the transcription that is bound to the code by the MqttState replay (manual acks on and off). The model is bound to the code in both directions: TLC-generated call sequences are replayed into the real rumqttc::MqttState and rumqttc::v5::MqttState with every observable compared, and the real EventLoop (both versions) is driven over an in-memory transport under paused time by TLC-generated and seeded random stimulus scripts (limits 2 and 100) whose recorded traces TLC validates against ClientLoopTrace.tla with this property's invariants evaluated in every state. The seeded scripts include bursts of 9-25 broker packets between two polls (more than one read batch).",
         "design_ref": "DESIGN.md section 6 / C10",
         "note": "Trusted: ClientState.tla/ClientLoop.tla as transcription of state.rs/eventloop.rs (bound by call-by-call equality replay of MqttState and by trace validation of the real EventLoop), TLC, the scripted in-memory broker of the harness. Exhaustive only for limits 2-3 and a handful of messages; limit 100 sampled by validated traces. v5 acknowledgements are modelled with two reason classes (success / failure code); topic aliases are not modelled.",
         "technique": "TLC model checking of ClientLoop.tla + spec->impl replay into MqttState + TLC trace validation of real EventLoop executions with the property invariants evaluated on every trace state",
@@ -128,7 +128,7 @@ CHECKS = {
     "C05": {
         "bins": ["codecs"],
         "category": "exploration",
-        "text": "Framing.tla states what one decoder call may answer given only the first bytes of the buffer, the number of buffered bytes and the maximum size: need-more exactly while the fixed header or the declared frame is incomplete (never on a complete frame), error on a malformed length or a declared length above the maximum, and on success consumption of exactly the declared frame. Byte strings (all strings up to length 3/4 over a header-grammar alphabet under all chunkings, 256 first bytes x 16 length shapes, structural mutations of every valid frame of Wire.tla, concatenated frames under random chunkings, maximum sizes around the frame) are run through the four decoders inside a Framed-like loop; TLC checks every recorded call against Framing!CallOk (FramingTrace.tla); outputs of different chunkings of the same bytes must be equal; a panic is a violation.",
+        "text": "Framing.tla states what one decoder call may answer given only the first bytes of the buffer, the number of buffered bytes and the maximum size: need-more exactly while the fixed header or the declared frame is incomplete (never on a complete frame), error on a malformed length or a declared length above the maximum, and on success consumption of exactly the declared frame. Byte strings (all strings up to length 3/4 over a header-grammar alphabet under all chunkings, 256 first bytes x 16 length shapes, structural mutations of every valid frame of Wire.tla, concatenated frames under random chunkings, maximum sizes around the frame) are run through the four decoders inside a Framed-like loop; TLC checks every recorded call against Framing!CallOk (FramingTrace.tla); outputs of different chunkings of the same bytes must be equal; a panic is a violation. The client decoders are entered the way the event loop enters them, through the tokio_util Decoder of the public Codec with an outgoing limit that differs from the incoming one, and must agree with Packet::read under the incoming limit.",
         "design_ref": "DESIGN.md section 6 / C05",
         "note": "Trusted: Framing.tla, TLC, the harness loop (append chunk, call decoder until need-more/error). Not exhaustive beyond the stated lengths.",
         "technique": "TLA+ per-call framing contract checked by TLC on call records of the real decoders (impl->spec) over enumerated and mutated byte strings",
